@@ -35,6 +35,32 @@ use log::debug;
 use regex::{Regex, RegexSet};
 use std::borrow::Cow;
 
+/// Verification hook H2: per-logical-line event log of process() (off unless a harness enables it).
+#[cfg(cc6502_verif)]
+pub mod verif_log {
+    use std::cell::RefCell;
+    #[derive(Debug, Clone)]
+    pub struct Event {
+        pub file: String,
+        pub first_line: u32,
+        pub line: u32,
+        pub kind: &'static str,
+        pub before: &'static str,
+        pub after: &'static str,
+        pub depth: usize,
+        pub emitted: usize,
+        pub in_comment: bool,
+    }
+    thread_local! { pub static LOG: RefCell<Option<Vec<Event>>> = RefCell::new(None); }
+    pub(super) fn name(s: super::State) -> &'static str {
+        match s {
+            super::State::Skip => "skip",
+            super::State::Inactive => "inactive",
+            super::State::Active => "active",
+        }
+    }
+}
+
 /// The context for preprocessing a file.
 ///
 /// Contains a list of macros and their definitions.
@@ -303,6 +329,10 @@ pub fn process<I: BufRead, O: Write>(
 
     while input.read_line(&mut buf)? > 0 {
         line += 1;
+        #[cfg(cc6502_verif)]
+        let (vf_first, vf_before, vf_emitted) = (line, state, lines.len());
+        #[cfg(cc6502_verif)]
+        let mut vf_kind = "text";
 
         // Process splices by removing them...
         loop {
@@ -431,6 +461,10 @@ pub fn process<I: BufRead, O: Write>(
             let substr = uncommented_buf.trim();
             // Before substitution, test the #ifdef
             if substr.starts_with("#ifdef") {
+                #[cfg(cc6502_verif)]
+                {
+                    vf_kind = "ifdef";
+                }
                 let mut parts = substr.split("//").next().unwrap().splitn(2, ' ');
                 parts.next().unwrap();
                 let maybe_expr = parts.next().map(|s| s.trim()).and_then(|s| {
@@ -460,6 +494,10 @@ pub fn process<I: BufRead, O: Write>(
                     state = State::Skip;
                 }
             } else if substr.starts_with("#ifndef") {
+                #[cfg(cc6502_verif)]
+                {
+                    vf_kind = "ifndef";
+                }
                 let mut parts = substr.split("//").next().unwrap().splitn(2, ' ');
                 parts.next().unwrap();
                 let maybe_expr = parts.next().map(|s| s.trim()).and_then(|s| {
@@ -489,6 +527,10 @@ pub fn process<I: BufRead, O: Write>(
                     state = State::Skip;
                 }
             } else if substr.starts_with("#undef") {
+                #[cfg(cc6502_verif)]
+                {
+                    vf_kind = "undef";
+                }
                 if state == State::Active {
                     let mut parts = substr.split("//").next().unwrap().splitn(2, ' ');
                     parts.next().unwrap();
@@ -516,6 +558,10 @@ pub fn process<I: BufRead, O: Write>(
                     }
                 }
             } else if substr.starts_with("#define") {
+                #[cfg(cc6502_verif)]
+                {
+                    vf_kind = "define";
+                }
                 if state == State::Active {
                     let mut parts = substr.split("//").next().unwrap().splitn(2, ' ');
                     parts.next().unwrap();
@@ -588,6 +634,10 @@ pub fn process<I: BufRead, O: Write>(
 
                     match name {
                         "#include" => {
+                            #[cfg(cc6502_verif)]
+                            {
+                                vf_kind = "include";
+                            }
                             if state == State::Active {
                                 // Get filename
                                 let expr = maybe_expr.ok_or_else(|| Error::Syntax {
@@ -682,6 +732,10 @@ pub fn process<I: BufRead, O: Write>(
                             }
                         }
                         "#if" => {
+                            #[cfg(cc6502_verif)]
+                            {
+                                vf_kind = "if";
+                            }
                             let expr = maybe_expr.ok_or_else(|| Error::Syntax {
                                 filename: filename.clone(),
                                 included_in: included_in.clone(),
@@ -698,6 +752,10 @@ pub fn process<I: BufRead, O: Write>(
                             }
                         }
                         "#elif" => {
+                            #[cfg(cc6502_verif)]
+                            {
+                                vf_kind = "elif";
+                            }
                             let expr = maybe_expr.ok_or_else(|| Error::Syntax {
                                 filename: filename.clone(),
                                 included_in: included_in.clone(),
@@ -713,6 +771,10 @@ pub fn process<I: BufRead, O: Write>(
                             }
                         }
                         "#else" => {
+                            #[cfg(cc6502_verif)]
+                            {
+                                vf_kind = "else";
+                            }
                             if maybe_expr.is_some() {
                                 return Err(Error::Syntax {
                                     filename: filename.clone(),
@@ -728,6 +790,10 @@ pub fn process<I: BufRead, O: Write>(
                             }
                         }
                         "#endif" => {
+                            #[cfg(cc6502_verif)]
+                            {
+                                vf_kind = "endif";
+                            }
                             if maybe_expr.is_some() {
                                 return Err(Error::Syntax {
                                     filename: filename.clone(),
@@ -744,6 +810,10 @@ pub fn process<I: BufRead, O: Write>(
                             })?;
                         }
                         "#error" => {
+                            #[cfg(cc6502_verif)]
+                            {
+                                vf_kind = "error";
+                            }
                             if state == State::Active {
                                 let expr = maybe_expr.ok_or_else(|| Error::Syntax {
                                     filename: filename.clone(),
@@ -777,6 +847,22 @@ pub fn process<I: BufRead, O: Write>(
                 }
             }
         }
+        #[cfg(cc6502_verif)]
+        verif_log::LOG.with(|l| {
+            if let Some(v) = l.borrow_mut().as_mut() {
+                v.push(verif_log::Event {
+                    file: filename.clone(),
+                    first_line: vf_first,
+                    line,
+                    kind: if insert_it { vf_kind } else { "blank" },
+                    before: verif_log::name(vf_before),
+                    after: verif_log::name(state),
+                    depth: stack.len(),
+                    emitted: lines.len() - vf_emitted,
+                    in_comment: in_multiline_comments,
+                })
+            }
+        });
         buf.clear();
     }
     Ok(lines)
